@@ -310,8 +310,9 @@ func (p *Path) toGoValue(a Value) (interface{}, bool) {
 		if x.kind == strConc {
 			return x.s, true
 		}
-		if x.kind == strEnum && x.idx.IsConst() {
-			return x.pool[x.idx.val], true
+		if x.kind == strEnum {
+			// formatting an enum string: fork over its values so the result stays concrete
+			return p.concStr(x, "format argument"), true
 		}
 		return p.concStrNoFork(x), false
 	case FloatV:
